@@ -333,6 +333,35 @@ pub struct HangInfo {
     pub a: u64,
     pub b: u64,
     pub c: u64,
+    /// set by the special monitors (quire histories, polynomials, C15): replayable op name and
+    /// the full input words of the call in flight
+    pub label: String,
+    pub words: Vec<u64>,
+}
+
+/// what a special monitor is doing right now, per worker slot: (replayable op name, input words).
+/// Updated under a mutex by the worker before the call, read by the watchdog only on a hang.
+pub static DOING: [Mutex<(String, Vec<u64>)>; MAX_THREADS] = [const { Mutex::new((String::new(), Vec::new())) }; MAX_THREADS];
+
+pub fn doing_set(label: &str, words: &[u64]) {
+    let i = MY_SLOT.with(|s| s.get());
+    let mut g = DOING[i].lock().unwrap();
+    if g.0 != label {
+        g.0.clear();
+        g.0.push_str(label);
+    }
+    g.1.clear();
+    g.1.extend_from_slice(words);
+}
+pub fn doing_push(words: &[u64]) {
+    let i = MY_SLOT.with(|s| s.get());
+    DOING[i].lock().unwrap().1.extend_from_slice(words);
+}
+pub fn doing_clear() {
+    let i = MY_SLOT.with(|s| s.get());
+    let mut g = DOING[i].lock().unwrap();
+    g.0.clear();
+    g.1.clear();
 }
 pub static HANG: Mutex<Option<HangInfo>> = Mutex::new(None);
 pub static HANG_FLAG: AtomicBool = AtomicBool::new(false);
@@ -408,11 +437,17 @@ pub fn par_shards<L: Send + 'static>(
                 } else if slot.phase.load(Ordering::Relaxed) == 1
                     && last[t].1.elapsed() > Duration::from_secs(HANG_SECS)
                 {
+                    let (label, words) = match DOING[t].try_lock() {
+                        Ok(g) => (g.0.clone(), g.1.clone()),
+                        Err(_) => (String::new(), Vec::new()),
+                    };
                     *hang.lock().unwrap() = Some(HangInfo {
                         op: slot.op.load(Ordering::Relaxed),
                         a: slot.a.load(Ordering::Relaxed),
                         b: slot.b.load(Ordering::Relaxed),
                         c: slot.c.load(Ordering::Relaxed),
+                        label,
+                        words,
                     });
                 }
             }
